@@ -14,13 +14,14 @@ for _v in ('OMP_NUM_THREADS', 'OPENBLAS_NUM_THREADS', 'MKL_NUM_THREADS'):
 import copy
 import json
 import math
+import re
 
 import numpy as np
 
 from common.util import Result, f2b, b2f, err_kind, close, close_list
 from common import nets
 from common import designgen as G
-from props.c08 import _load, design_impl, model_chain
+from props.c08 import _load, design_impl, model_chain, raman_estimate_class
 from props.c09 import span_cfg, source_power, design_constants
 
 ID = 'C17'
@@ -32,12 +33,17 @@ THEOREMS = [f'Gnpy.Chain.{t}' for t in (
     'redesign_eol_counterexample', 'redesign_eol_drift', 'simparams_restored', 'simparams_restored_any_prior',
     'simparams_restored_many', 'simparams_during', 'reload_rejects_dangling')]
 RULE = ('cases from one PRNG: (a) 60 % topologies/configurations of C08 (Raman crash inputs excluded, EOL = 0 in 75 % of '
-        'them) taken through: a design of the topology under ANOTHER library (same amplifier names and gain ranges, other noise '
-        'figures / p_max), the design, a second design with the same library object, again the other library, a design under '
-        'the real library with every amplifier variety RENAMED (must be equal up to the names), a design under a fresh copy '
-        'of the library, and 1-3 export(network_to_json)/reload'
+        'them; half with cut fibres carrying att_in / lumped losses, 40 % drawn with the multiband switch (C+L ROADMs, '
+        'Multiband_amplifiers, explicit single design bands), 25 % with own design bands/spacings on ROADMs; 12 % gain-mode '
+        'lines with an operator out_voa followed by an amplifier without type_variety whose operator gain puts its output '
+        'within out_voa dB of a p_max) taken through: a design of the topology under ANOTHER library (same amplifier names '
+        'and gain ranges, other noise figures / p_max), the design, a second design with the same library object, a what-if '
+        'design with a power override on that library object and the design again, again the other library, a design under a '
+        'fresh copy of the library, in 25 % a design in a fresh interpreter (all must equal the first design exactly), a '
+        'design under the real library with every amplifier variety RENAMED by a common prefix (correspondence only), and 1-3 '
+        'export(network_to_json)/reload'
         '(network_from_json)/redesign rounds; (b) 30 % SimParams cases; (c) 10 % malformed: an exported design from which one line element was deleted while its connections '
-        'remain must be rejected on reload with NetworkTopologyError. SimParams cases: a random prior setting (Raman flag/method/order/'
+        'remain must be rejected on reload (the error kind, NetworkTopologyError, is compared with the model). SimParams cases: a random prior setting (Raman flag/method/order/'
         'resolutions, NLI method in mixed case, tolerances, computed channels) in force while a topology with 0-2 '
         'RamanFibers is designed. non-trivial: the design has at least one amplifier with an automatically derived '
         'setting and one redesign round was compared / a RamanFiber was estimated under a non-default prior setting / every malformed case; '
@@ -48,7 +54,7 @@ MODEL_SCOPE = ('modelled: Fiber/Fused/Edfa.to_json rounding (length, loss_coef, 
                'restore sequence of estimate_raman_gain. Not modelled: ROADM/Transceiver to_json (compared on the '
                'implementation only), element order of the JSON document, metadata, the Raman solver (estimated gains '
                'of each round are inputs), object identity/aliasing at run time (covered by the monitor only: two '
-               'designs sharing one equipment object). Topologies on which designed_network raises (open finding '
+               'designs sharing one equipment object), Multiband_amplifier lines (export equality and repeated designs only). Topologies on which designed_network raises (open finding '
                'raman-gain-before-estimate of C08, incl. gain-mode redesign of Edfa -> RamanFiber) are not generated')
 PARTIAL = ['export_rounding_partial: only the size of the rounding error of the exported gain/length/loss_coef is proved '
            '(<= 5e-7 of the exported unit); that the second design stays within the export rounding when it starts from '
@@ -56,7 +62,12 @@ PARTIAL = ['export_rounding_partial: only the size of the rounding error of the 
            'proved - redesign_fixpoint is exact for unrounded export; the monitor compares with 2e-6 tolerance',
            'runtime aliasing (shared equipment objects, cached attributes on elements) is outside the chain model: '
            'design_deterministic is about the model function; the monitor designs the same input twice with one shared '
-           'equipment object and compares the exports exactly']
+           'equipment object and compares the exports exactly',
+           'SimParams on the ERROR path: estimate_raman_gain sets the estimate settings and restores the saved ones without a '
+           'try/finally; if the Raman solver raised in between, the estimate settings would stay in force. No input of the '
+           'C08 class makes the solver raise there (wrong pump direction / power / missing pumps design normally; a zero '
+           'pump frequency is rejected later, after the restore), so "left as found" is checked - and proved on the model - '
+           'for designs that return and for designs that raise outside the estimate only']
 
 MANIFEST = {'level_note': 'proof on the chain model (redesign fixpoint exact for unrounded export, K1 counterexample, '
                           'SimParams restore for every prior setting); partial for what lives in object identity and for the '
@@ -75,14 +86,37 @@ def gen(rng, tier, widen=False):
         c['kind'] = 'malformed'
         c['drop'] = rng.random()
         return c
-    c = G.gen_case(rng, tier, widen, raman_rate=0.08, raman_crash_rate=0.0, eol_zero=rng.random() < 0.75)
+    if r < 0.48:
+        c = gen_gain_window(rng)
+    else:
+        # "every topology and configuration as in C08": also long fibres that are cut, carrying att_in / lumped losses, and
+        # C+L lines with Multiband_amplifiers
+        c = G.gen_case(rng, tier, widen, raman_rate=0.08, raman_crash_rate=0.0, eol_zero=rng.random() < 0.75,
+                       lumped=rng.random() < 0.5, multiband=rng.random() < 0.4, band_spacing=rng.random() < 0.25)
+    if c.get('eqpt'):
+        c['roadm_design'] = {}      # a single own design band on a C+L ROADM would contradict its Multiband_amplifiers
     # keep the size moderate: several designs and propagations per case
     c['kind'] = 'redesign'
     c['rounds'] = rng.choice([1, 1, 2, 3])
+    c['fresh'] = rng.random() < 0.25          # also design the input in a fresh interpreter and compare
+    c['override'] = rng.choice([-2.0, 1.5, 3.0])     # power override (dB on top of SI power) of the what-if design in between
     if c.get('has_raman'):
         # gain mode exports delta_p = None: the redesign of `Edfa(user delta_p) -> RamanFiber` would need the slope rule
         # on the Raman span and raise (open finding raman-gain-before-estimate of C08): not generated here
         c['span']['power_mode'] = True
+    return c
+
+
+def gen_gain_window(rng):
+    """gain mode, an amplifier with an operator out_voa, and behind the next span an amplifier WITHOUT type_variety whose
+    operator gain puts its true output inside (p_max - out_voa, p_max) of one of the library models: auto-design selects
+    the model on the first design; the export imposes it, so the redesign runs the saturation check of imposed models"""
+    from props.c09 import gen_gain_saturation
+    c = gen_gain_saturation(rng)
+    a1 = c['chains'][0]['line'][2]
+    if rng.random() < 0.8:
+        a1.pop('type_variety', None)
+    c['shape'] = 'gain-window'
     return c
 
 
@@ -177,7 +211,8 @@ def json_diffs(j1, j2, tol=JTOL, rank=None):
 
 
 def oms_causes(case, eq, pre, post, p0, pref, pref_total):
-    """known root causes of redesign drift in one OMS: {cls: first index in `post` from which it may act}"""
+    """known root causes of redesign drift in one OMS: {cls: [(index in `post` from which it acts, size in dB of what one
+    redesign can move there)]}"""
     sp = case['span']
     causes = {}
     user = {o['uid']: o for o in pre if o['kind'] == 'edfa'}
@@ -194,19 +229,25 @@ def oms_causes(case, eq, pre, post, p0, pref, pref_total):
         u_voa = None if u is None else u['out_voa_user']
         voa_auto = u_voa is None and sp['power_mode'] and bool(a.out_voa_auto)
         if voa_auto and pref_total + r['_delta_p'] > a.p_max + 1e-9:
-            causes.setdefault('voa-rounding-above-pmax', idx)
+            # the redesign takes the exported offset back to p_max: by the excess
+            causes.setdefault('voa-rounding-above-pmax', []).append((idx, pref_total + r['_delta_p'] - a.p_max))
         # open finding gain-mode-in-voa-saturation (C09): in gain mode the code leaves in_voa out of the saturation
         # estimate; an amplifier whose estimate sits at p_max is reduced again by every redesign
         p_in = pref_total + off - loss - r['in_voa']
         if (not sp['power_mode']) and r['in_voa'] and p_in + r['in_voa'] + r['effective_gain'] > a.p_max - 1e-9:
-            causes.setdefault('gain-mode-in-voa-saturation', idx)
+            causes.setdefault('gain-mode-in-voa-saturation', []).append((idx, float(r['in_voa'])))
         off = r['_delta_p'] - r['out_voa']
         loss = 0.0
         span = []
+    for idx, r in enumerate(post):
+        # open finding export-drops-lumped-losses: Fiber.to_json does not write lumped_losses, the reloaded span is shorter
+        # by their sum
+        if r['kind'] in ('fiber', 'raman') and r.get('lumps'):
+            causes.setdefault('export-drops-lumped-losses', []).append((idx, float(sum(x[1] for x in r['lumps']))))
     if sp['EOL'] != 0:
         first = next((i for i, r in enumerate(post) if r['kind'] in ('fiber', 'raman')), None)
         if first is not None:
-            causes.setdefault('K1-eol-redesign-drift', first)
+            causes.setdefault('K1-eol-redesign-drift', []).append((first, float(sp['EOL'])))
     return causes
 
 
@@ -218,7 +259,8 @@ def propagate_all(case, eq, net, chains_objs, ends):
     pref, _ = design_constants(case, eq)
     res = []
     for ch, objs in zip(G.all_chains(case), chains_objs):
-        if objs is None or any(G.kind_of(o) == 'raman' for o in objs):
+        if objs is None or any(G.kind_of(o) in ('raman', 'multiband') for o in objs):
+            # Raman solver / per-band amplifiers: outside this comparison (counted by the caller)
             res.append(None)
             continue
         p0 = source_power(case, ch, eq, pref)
@@ -260,7 +302,7 @@ def polluting_equipment(case):
     return G.apply_overrides(eq, case)
 
 
-RENAME = '~r'
+RENAME = 'r~'       # a common PREFIX: the lexicographic order of the names is unchanged
 
 
 def renamed_equipment(case):
@@ -269,8 +311,8 @@ def renamed_equipment(case):
     eq = G.equipment_for(case)
     new = {}
     for name, amp in eq['Edfa'].items():
-        amp.type_variety = name + RENAME
-        new[name + RENAME] = amp
+        amp.type_variety = RENAME + name
+        new[RENAME + name] = amp
     eq['Edfa'] = new
     return eq
 
@@ -279,16 +321,48 @@ def renamed_topology(case):
     topo = G.topology_json(case)
     for e in topo['elements']:
         if e['type'] == 'Edfa' and e.get('type_variety'):
-            e['type_variety'] = e['type_variety'] + RENAME
+            e['type_variety'] = RENAME + e['type_variety']
     return topo
 
 
 def unrename(j):
     j = jcopy(j)
     for e in j['elements']:
-        if e.get('type') == 'Edfa' and isinstance(e.get('type_variety'), str) and e['type_variety'].endswith(RENAME):
-            e['type_variety'] = e['type_variety'][:-len(RENAME)]
+        if e.get('type') == 'Edfa' and isinstance(e.get('type_variety'), str) and e['type_variety'].startswith(RENAME):
+            e['type_variety'] = e['type_variety'][len(RENAME):]
     return j
+
+
+FRESH_CODE = '''
+import sys, json, copy, logging
+sys.path.insert(0, sys.argv[1])
+logging.disable(logging.CRITICAL)
+from common import designgen as G
+from gnpy.tools.json_io import network_from_json, network_to_json
+from gnpy.tools.worker_utils import designed_network
+case = json.load(sys.stdin)
+eq = G.equipment_for(case)
+net = network_from_json(copy.deepcopy(G.topology_json(case)), eq)
+designed_network(eq, net)
+print("@@" + json.dumps(network_to_json(net)))
+'''
+
+
+def fresh_design(case):
+    """the exported design of the case made in a fresh interpreter (same gnpy as this process: PYTHONPATH is inherited);
+    (export, None) or (None, reason)"""
+    import subprocess
+    import sys
+    harness = os.path.dirname(os.path.dirname(os.path.abspath(__file__)))
+    try:
+        p = subprocess.run([sys.executable, '-W', 'ignore', '-c', FRESH_CODE, harness], input=json.dumps(case),
+                           capture_output=True, text=True, timeout=300, env=dict(os.environ, PYTHONDONTWRITEBYTECODE='1'))
+    except subprocess.TimeoutExpired:
+        return None, 'timeout'
+    for line in p.stdout.splitlines():
+        if line.startswith('@@'):
+            return json.loads(line[2:]), None
+    return None, (p.stderr.strip().splitlines() or ['no output'])[-1][:200]
 
 
 def run_redesign(case, drv):
@@ -312,8 +386,17 @@ def run_redesign(case, drv):
     pre = [[G.record(n) for n in objs] for objs in pre_objs]
     lo, hi, target = G.split_bounds(sp)
     err, _ = design_impl(case, eq, net)
+    if err == 'NetworkTopologyError':
+        # a generated lumped loss exactly on a sub-span boundary is rejected by the Fiber constructor (see C08): the C08 model
+        # says whether this input is such a case - then it is not a well-formed input
+        model_errs = [drv.ask('c08.design', **model_chain(case, ch, recs, lo, hi, target)).get('error')
+                      for ch, recs in zip(chains, pre)]
+        res.cmp_exact('designed_network.error', err, next((e for e in model_errs if e), None))
+        if 'NetworkTopologyError' in model_errs:
+            res.stats.update({'redesign': 1, 'lump_on_boundary_rejected': 1})
+            return res
     if err is not None:
-        cls = 'raman-gain-before-estimate' if (err == 'TypeError' and case.get('has_raman')) else 'unlisted'
+        cls = raman_estimate_class(case, err)
         res.fail(f'design raised: designed_network failed with {err} on a well-formed topology', cls=cls)
         res.stats.update({'redesign': 1, f'design_error_{err}': 1})
         return res
@@ -330,23 +413,31 @@ def run_redesign(case, drv):
     except Exception as e:      # noqa: BLE001
         res.fail(f'twice: a second design of the same input raised {err_kind(e)}')
 
-    # ---- another design under the other library in between, then: the same input under the same library with every
-    # amplifier variety RENAMED must give the same design (up to the names): no state keyed by names survives designs
+    # ---- a what-if design with a power override on the SAME library object in between (the --power option), then the
+    # same input once more with that library object
+    try:
+        try:
+            designed_network(eq, network_from_json(copy.deepcopy(G.topology_json(case)), eq),
+                             args_power=float(eq['SI']['default'].power_dbm) + case.get('override', 1.5))
+        except Exception:      # noqa: BLE001 - the what-if design itself is not judged here
+            pass
+        net_w = network_from_json(copy.deepcopy(G.topology_json(case)), eq)
+        designed_network(eq, net_w)
+        jw = jcopy(network_to_json(net_w))
+        if jw != j1:
+            d = json_diffs(j1, jw, tol=0.0)
+            res.fail(f'twice: the same input designed again with the same library object after a design with a power '
+                     f'override differs: {d[:3]}')
+    except Exception as e:      # noqa: BLE001
+        res.fail(f'twice: designing the same input again after a design with a power override raised {err_kind(e)}')
+
+    # ---- another design under the other library in between, then the same input under a fresh copy of the real library
     eq_x = polluting_equipment(case)
     try:
         designed_network(eq_x, network_from_json(copy.deepcopy(G.topology_json(case)), eq_x))
     except Exception:      # noqa: BLE001
         pass
     try:
-        eq_r = renamed_equipment(case)
-        net_r = network_from_json(copy.deepcopy(renamed_topology(case)), eq_r)
-        designed_network(eq_r, net_r)
-        jr = unrename(network_to_json(net_r))
-        if jr != j1:
-            d = json_diffs(j1, jr, tol=0.0)
-            res.fail(f'renamed: the same input designed under the same library with renamed amplifier varieties (after a '
-                     f'design under another library in this process) differs: {d[:3]}')
-        # and once more under a fresh copy of the real library: identical to the first design
         eq_c = G.equipment_for(case)
         net_c = network_from_json(copy.deepcopy(G.topology_json(case)), eq_c)
         designed_network(eq_c, net_c)
@@ -355,16 +446,56 @@ def run_redesign(case, drv):
             d = json_diffs(j1, jc, tol=0.0)
             res.fail(f'twice: the same input designed again after a design under another library differs: {d[:3]}')
     except Exception as e:      # noqa: BLE001
-        res.fail(f'renamed: designing the same input under the renamed library raised {err_kind(e)}: {str(e)[:100]}')
+        res.fail(f'twice: designing the same input again under a fresh copy of the library raised {err_kind(e)}')
+    # ... and in a fresh interpreter (nothing designed before in that process): identical to the design made here, after
+    # designs under another library in this process
+    if case.get('fresh'):
+        jf, why = fresh_design(case)
+        res.stats['fresh_process_designs'] = 1
+        if jf is None:
+            res.fail(f'twice: the same input cannot be designed in a fresh interpreter: {why}')
+        elif jf != j1:
+            d = json_diffs(jf, j1, tol=0.0)
+            res.fail(f'twice: the same input designed in a fresh interpreter differs from the design made in this process '
+                     f'(after designs under another library): {d[:3]}')
+    # the same input under the real library with every amplifier variety RENAMED (a common prefix: the order of the names is
+    # kept) - the statement does not promise independence of the names, so a difference is reported on the correspondence
+    # side (the first design standing for the model), not as a property failure
+    if not case.get('eqpt'):
+        try:
+            eq_r = renamed_equipment(case)
+            net_r = network_from_json(copy.deepcopy(renamed_topology(case)), eq_r)
+            designed_network(eq_r, net_r)
+            jr = unrename(network_to_json(net_r))
+            res.compared += 1
+            if jr != j1:
+                d = json_diffs(j1, jr, tol=0.0)
+                res.mismatch('design under the renamed library (names only)', str(d[:3]), 'equal to the first design')
+        except Exception as e:      # noqa: BLE001
+            res.mismatch('design under the renamed library (names only)', f'{err_kind(e)}: {str(e)[:100]}',
+                         'equal to the first design')
 
     si = eq['SI']['default']
     pref_impl = float(watt2dbm(dbm2watt(si.power_dbm)))
     pref, nch = design_constants(case, eq)
-    pref_total = pref + 10 * math.log10(nch)
+    # the design load of each OMS: the SI count when it is imposed, else the count of the OMS's own design band (as in C09)
+    bands = [G.design_band_of(case, ch, eq) for ch in chains]
+    pref_totals = [pref + 10 * math.log10(nch if si.use_si_channel_count_for_design else int((b[1] - b[0]) // b[2]))
+                   for b in bands]
+    # ... and after export/reload: Roadm.to_json writes design_bands only when there are several (open finding
+    # export-drops-single-design-band), so a single node-level band falls back to the SI band; per-degree bands are written
+    bands2 = [b if ((case.get('roadm_design') or {}).get(ch['src']) or {}).get('per_degree') else (si.f_min, si.f_max, si.spacing)
+              for ch, b in zip(chains, bands)]
+    pref_totals2 = [pref + 10 * math.log10(nch if si.use_si_channel_count_for_design else int((b[1] - b[0]) // b[2]))
+                    for b in bands2]
     post_objs, ends = G.chains_of(net, case)
     post1 = [[G.record(n) for n in objs] for objs in post_objs]
-    causes = [oms_causes(case, eq, pre[i], post1[i], source_power(case, ch, eq, pref), pref, pref_total)
+    causes = [oms_causes(case, eq, pre[i], post1[i], source_power(case, ch, eq, pref), pref, pref_totals[i])
               for i, ch in enumerate(chains)]
+    for i in range(len(chains)):
+        if abs(pref_totals2[i] - pref_totals[i]) > 1e-9:
+            # the redesign counts another design load: saturation cuts (and what follows them) move by up to the difference
+            causes[i].setdefault('export-drops-single-design-band', []).append((0, abs(pref_totals2[i] - pref_totals[i])))
     owner = {}
     rank = {}
     for i, recs in enumerate(post1):
@@ -376,7 +507,12 @@ def run_redesign(case, drv):
     prop1 = propagate_all(case, eq, net, post_objs, ends)
 
     # ---- export / reload / redesign rounds -----------------------------------------------------------------------------------
+    skipped = {'oms_propagation_not_compared': 0, 'model_round_skipped_chain_lost': 0, 'oms_not_modelled_multiband': 0}
     jk, netk, postk = j1, net, post1
+    known_drift = [dict() for _ in chains]      # per OMS: {known class: summed |drift| in dB of the differences it explains}
+    for i, c in enumerate(causes):
+        if 'export-drops-lumped-losses' in c:       # acts on the received powers also where no exported number changes
+            known_drift[i]['export-drops-lumped-losses'] = sum(m for _, m in c['export-drops-lumped-losses'])
     rounds_done = 0
     all_post = [post1]
     for rnd in range(case['rounds']):
@@ -399,7 +535,9 @@ def run_redesign(case, drv):
         post2 = [[G.record(n) for n in objs] if objs is not None else None for objs in post2_objs]
         all_post.append(post2)
         for (u, path, v1, v2) in diffs:
-            cls = classify_diff(case, u, path, v1, v2, owner, causes, postk)
+            cls = classify_diff(case, u, path, v1, v2, owner, causes, postk, JTOL * (1 + rank.get(u, 0)), post2)
+            if cls != 'unlisted' and u in owner:
+                known_drift[owner[u][0]][cls] = known_drift[owner[u][0]].get(cls, 0.0) + abs(v2 - v1)
             res.fail(f'drift: round {rnd + 1}: {u} {path}: {v1} -> {v2}', cls=cls, uid=u)
         jk, netk, postk = j2, net2, post2
     # equal propagation results of the first and the last design
@@ -408,19 +546,36 @@ def run_redesign(case, drv):
         propl = propagate_all(case, G.equipment_for(case), netk, postl_objs, endsl)
         for i, (a, b) in enumerate(zip(prop1, propl)):
             if a is None or b is None:
+                skipped['oms_propagation_not_compared'] += 1
                 continue
             dev = max(float(np.max(np.abs(x - y) / np.maximum(np.abs(x), 1e-30))) for x, y in zip(a, b))
             if dev > 1e-5:
-                cls = sorted(causes[i])[0] if causes[i] else 'unlisted'
+                # known only when no larger than what the known drifts of this OMS can do to the received powers: the
+                # signal moves by at most their sum S (dB), the ASE by 2 S (gain and noise figure), the NLI by 3 S (cubic)
+                S = sum(known_drift[i].values())
+                devs = [float(np.max(np.abs(x - y) / np.maximum(np.abs(x), 1e-30))) for x, y in zip(a, b)]
+                with np.errstate(divide='ignore', invalid='ignore'):
+                    dbs = [float(10 * np.log10(1 + d)) for d in devs]
+                within = S > 0 and all(d <= f * S + 1e-3 for d, f in zip(dbs, (1, 2, 3)))
+                cls = max(known_drift[i], key=known_drift[i].get) if within else 'unlisted'
                 res.fail(f'propagation: OMS {chains[i]["src"]}->{chains[i]["dst"]}: received signal/ASE/NLI differ by '
                          f'{dev:.3e} (relative) between the first design and the design after {rounds_done} '
-                         f'export/reload/redesign round(s)', cls=cls)
+                         f'export/reload/redesign round(s) (signal/ASE/NLI {[round(d, 4) for d in dbs]} dB, known drifts of '
+                         f'this OMS sum to {S:.4f} dB)', cls=cls)
 
     # ---- model: round 1, export, round 2 ----------------------------------------------------------------------------------------
     n_auto = 0
-    if rounds_done and all(p is not None for p in all_post[1]):
+    if rounds_done and not all(p is not None for p in all_post[1]):
+        skipped['model_round_skipped_chain_lost'] += 1
+        res.fail('chain lost: a line of the redesigned network cannot be followed from its source to its destination')
+    elif rounds_done:
         post2 = all_post[1]
         for i, ch in enumerate(chains):
+            if any(r['kind'] == 'multiband' for r in post1[i]) or any(r['kind'] == 'multiband' for r in post2[i]):
+                # per-band amplifiers are outside the C09 model: monitor only (export equality above)
+                skipped['oms_not_modelled_multiband'] += 1
+                n_auto += sum(1 for r in post1[i] if r['kind'] == 'multiband')
+                continue
             recs = copy.deepcopy(pre[i])
             gains1 = {G.base_uid(r['uid']): r['raman_gain'] for r in post1[i] if r['kind'] == 'raman'}
             for r in recs:
@@ -433,7 +588,7 @@ def run_redesign(case, drv):
             sels = [{'p_max': f2b(eq['Edfa'][r['variety']].p_max), 'gain_flatmax': f2b(eq['Edfa'][r['variety']].gain_flatmax),
                      'out_voa_auto': bool(eq['Edfa'][r['variety']].out_voa_auto)} for r in amps1]
             p0 = source_power(case, ch, eq, pref_impl)
-            a1 = model_round(case, drv, ch, [G.elem_model(r) for r in recs], sels, pref_impl, pref_total, p0, lo, hi, target)
+            a1 = model_round(case, drv, ch, [G.elem_model(r) for r in recs], sels, pref_impl, pref_totals[i], p0, lo, hi, target)
             if 'error' in a1:
                 res.mismatch('round1.error', None, a1['error'])
                 continue
@@ -444,7 +599,7 @@ def run_redesign(case, drv):
                 if e['kind'] == 'fiber' and e['raman']:
                     g = gains2.get(e['uid'])
                     e['raman_gain'] = None if g is None else f2b(g)
-            a2 = model_round(case, drv, ch, exported, sels, pref_impl, pref_total, p0, lo, hi, target)
+            a2 = model_round(case, drv, ch, exported, sels, pref_impl, pref_totals2[i], p0, lo, hi, target)
             tag = f'round2.oms[{ch["src"]}->{ch["dst"]}]'
             if 'error' in a2:
                 res.mismatch(f'{tag}.error', None, a2['error'])
@@ -480,32 +635,77 @@ def run_redesign(case, drv):
     res.stats.update({'redesign': 1, f'rounds_{rounds_done}': 1, 'eol_nonzero': int(sp['EOL'] != 0),
                       'power_mode': int(sp['power_mode']), 'with_raman': int(bool(case.get('has_raman'))),
                       'auto_settings': n_auto,
-                      'oms_with_known_cause': sum(1 for c in causes if c)})
+                      'oms_with_known_cause': sum(1 for c in causes if c),
+                      'multiband_cases': int(bool(case.get('eqpt'))), 'gain_window_cases': int(case.get('shape') == 'gain-window'),
+                      'with_lumped_or_att_in': int(any(e['type'] == 'Fiber' and (e['params'].get('lumped_losses') or
+                                                                                e['params'].get('att_in'))
+                                                       for ch in chains for e in ch['line']))})
+    res.stats.update(skipped)
     return res
 
 
-def classify_diff(case, uid, path, v1, v2, owner, causes, postk):
-    """a JSON difference is a known finding only if its own specific condition holds; everything else is unlisted"""
+def classify_diff(case, uid, path, v1, v2, owner, causes, postk, tol, postn=None):
+    """a JSON difference is a known finding only if its own specific condition holds AND its size is what that finding can
+    produce; everything else is unlisted"""
     sp = case['span']
     if uid not in owner:
         return 'unlisted'
     i, k = owner[uid]
     cs = causes[i]
-    rec = postk[i][k] if postk[i] is not None and k < len(postk[i]) else None
+    recs = postk[i]
+    if recs is None or k >= len(recs):
+        return 'unlisted'
     numeric = isinstance(v1, (int, float)) and isinstance(v2, (int, float))
-    # K1: every round adds EOL to con_out of each fibre that is not followed by a Fused; gains follow
-    if 'K1-eol-redesign-drift' in cs and sp['EOL'] != 0 and numeric:
-        if path == 'params.con_out':
-            nxt = postk[i][k + 1]['kind'] if k + 1 < len(postk[i]) else 'end'
-            exp = 0.0 if nxt == 'fused' else sp['EOL']
-            return 'K1-eol-redesign-drift' if abs((v2 - v1) - exp) <= 1e-9 and exp != 0.0 else 'unlisted'
-        if path == 'operational.gain_target' and k >= cs['K1-eol-redesign-drift']:
-            return 'K1-eol-redesign-drift'
-        if path in ('operational.delta_p',) and not sp['power_mode']:
-            return 'unlisted'
-    for cls in ('voa-rounding-above-pmax', 'gain-mode-in-voa-saturation'):
-        if cls in cs and k >= cs[cls] and numeric and path in ('operational.gain_target', 'operational.delta_p'):
-            return cls
+    if not numeric:
+        return 'unlisted'
+    # the per-band amplifiers of a Multiband_amplifier carry the same settings under amplifiers.<n>.
+    path = re.sub(r'^amplifiers\.\d+\.', '', path)
+    # the span in front of element k (for an amplifier: the span it closes; for a fibre: the span it belongs to)
+    j = k - 1
+    while j >= 0 and recs[j]['kind'] not in ('edfa', 'multiband'):
+        j -= 1
+    e = k if recs[k]['kind'] in ('edfa', 'multiband') else k + 1
+    while e < len(recs) and recs[e]['kind'] not in ('edfa', 'multiband'):
+        e += 1
+    span = recs[j + 1:e]
+    n_eol = sum(1 for x, nx in zip(span, span[1:] + [{'kind': 'end'}])
+                if x['kind'] in ('fiber', 'raman') and nx['kind'] != 'fused')
+    raman = any(x['kind'] == 'raman' for x in span)
+    lumped = float(sum(v[1] for x in span if x['kind'] in ('fiber', 'raman') for v in x.get('lumps', [])))
+    k1 = 'K1-eol-redesign-drift' in cs and sp['EOL'] != 0
+    # K1: every round adds EOL to con_out of each fibre that is not followed by a Fused
+    if k1 and path == 'params.con_out':
+        nxt = recs[k + 1]['kind'] if k + 1 < len(recs) else 'end'
+        exp = 0.0 if nxt == 'fused' else sp['EOL']
+        return 'K1-eol-redesign-drift' if abs((v2 - v1) - exp) <= 1e-9 and exp != 0.0 else 'unlisted'
+    # what the other known causes can move: up to this element, and up to the amplifier that opens this span
+    REACH = ('voa-rounding-above-pmax', 'gain-mode-in-voa-saturation', 'export-drops-lumped-losses',
+             'export-drops-single-design-band')
+    reach = {c: sum(m for at, m in cs[c] if at <= k) for c in REACH if c in cs}
+    # for the gain of amplifier k: its own and every upstream cause, the lumped losses of its own span being in `exp`
+    r_up = sum(m for c in REACH if c in cs for at, m in cs[c]
+               if (at <= j if c == 'export-drops-lumped-losses' else at <= k))
+    # the gain of the amplifier that closes a span follows the span loss (offsets and VOAs are exported, hence kept): up by
+    # EOL per fibre of the span that got it (K1), down by the lumped losses the export dropped - plus what arrives from
+    # upstream causes
+    if path == 'operational.gain_target' and recs[k]['kind'] in ('edfa', 'multiband'):
+        exp = (sp['EOL'] * n_eol if k1 else 0.0) - lumped
+        if raman and k1 and postn is not None and postn[i] is not None and len(postn[i]) == len(recs):
+            # a Raman span: the pumps enter through the output connector, the estimated Raman gain of the redesign (an
+            # input of this check, as for the model) moved with it
+            exp -= sum((y['raman_gain'] or 0.0) - (x['raman_gain'] or 0.0)
+                       for x, y in zip(recs[j + 1:e], postn[i][j + 1:e]) if x['kind'] == 'raman')
+        if exp != 0.0 and abs((v2 - v1) - exp) <= tol + (0.03 if raman else 0.0) + r_up:
+            return 'export-drops-lumped-losses' if lumped else 'K1-eol-redesign-drift'
+        if lumped and exp - tol - r_up <= (v2 - v1) <= exp + lumped + tol + r_up:
+            # ... less whatever padding the redesign put back into the shortened span
+            return 'export-drops-lumped-losses'
+    if path == 'params.att_in' and lumped and -tol <= (v2 - v1) <= lumped + tol:
+        return 'export-drops-lumped-losses'         # padding added to a span that fell below the padding
+    # downstream of a known cause a setting can move by no more than what the causes up to there move (saturation cuts of
+    # kept gains when upstream loss disappeared, offsets taken back to p_max, the following amplifier making up for it)
+    if path in ('operational.gain_target', 'operational.delta_p') and reach and 0 < abs(v2 - v1) <= sum(reach.values()) + tol:
+        return max(reach, key=reach.get)
     return 'unlisted'
 
 
@@ -598,7 +798,7 @@ def run_simparams(case, drv):
                       during_model if during_model != before else None)
     # ---- monitor: left exactly as found -----------------------------------------------------------------------------------
     if err is not None:
-        cls = 'raman-gain-before-estimate' if err == 'TypeError' else 'unlisted'
+        cls = raman_estimate_class(case, err)
         res.fail(f'design raised: designed_network failed with {err}', cls=cls)
     if after != before:
         res.fail(f'SimParams: designed_network left {after}, found {before}')
@@ -635,9 +835,9 @@ def run_malformed(case, drv):
     ans = drv.ask('c17.reload', uids=[e['uid'] for e in j['elements']],
                   connections=[[c['from_node'], c['to_node']] for c in j['connections']])
     res.cmp_exact('network_from_json.error(malformed)', got, ans.get('error'))
-    if got != 'NetworkTopologyError':
-        res.fail(f'malformed accepted: document without element {victim} (still connected) gave {got}, expected '
-                 'NetworkTopologyError')
+    # monitor: the document must be rejected; WHICH error it is rejected with is compared with the model above
+    if got is None:
+        res.fail(f'malformed accepted: document without element {victim} (still connected) was loaded')
     res.nontrivial = True
     res.stats.update({'malformed': 1, f'malformed_error_{got}': 1})
     return res
